@@ -40,6 +40,7 @@ func H_C15_camelkey() {
 		c, k, s = c+"."+c2, k+"."+k2, s+"."+s2
 	}
 	rc, rk, rs := toCamelKey(c), toCamelKey(k), toCamelKey(s)
+	vObserve("camel", rk)
 	vAssert(rk == rc, "kebab-equals-camel")
 	vAssert(rs == rc, "snake-equals-camel")
 	vAssert(rc == c, "camel-spelling-is-canonical")
